@@ -154,10 +154,12 @@ fn list_current_history(sh: &Shell, conn: &Conn,
         sql = format!("{} AND info like '%dir:{}|%'", sql, sh.current_dir.replace('\'', "''"))
     }
 
+    // items with equal start time (e.g. added with `history add`) keep
+    // the order they were added in.
     if opt.asc {
-        sql = format!("{} ORDER BY tsb", sql);
+        sql = format!("{} ORDER BY tsb, ROWID", sql);
     } else {
-        sql = format!("{} order by tsb desc", sql);
+        sql = format!("{} order by tsb desc, ROWID desc", sql);
     };
     sql = format!("{} limit {} ", sql, opt.limit);
 
